@@ -25,6 +25,8 @@ PID = "C01"
 #  ('genside', d)               generator: yield (d ns, [event at now]); return None
 #  ('cancel', k)                cancel pre-run event #k
 #  ('past',)                    emit an event at now-1 ns (not live)
+#  ('past2',)                   emit two events at now-2 and now-1 ns (not live, increasing stale times)
+#  ('emitrev', dt)              create a, b (in that order) at now+dt but return [b, a]
 #  ('crash', on)                set the *other* entity's crash flag
 LEAF = [("nop",)]
 BEH_FULL = (
@@ -34,13 +36,14 @@ BEH_FULL = (
     + [("gen", d, dt) for d in (0, 1) for dt in (0, 1)]
     + [("genside", 0), ("genside", 1)]
     + [("cancel", 0), ("cancel", 1), ("cancel", 2)]
-    + [("past",)]
+    + [("past",), ("past2",)]
+    + [("emitrev", 0), ("emitrev", 1)]
     + [("crash", True), ("crash", False)]
 )
 BEH_SMALL = [("nop",), ("emit", 0, 1, False), ("emit", 1, 2, False), ("gen", 1, 0),
-             ("genside", 1), ("cancel", 2), ("emit", 1, 1, True), ("crash", True)]
+             ("genside", 1), ("cancel", 2), ("emit", 1, 1, True), ("crash", True), ("emitrev", 1), ("past2",)]
 KINDS = ["plain", "daemon", "cancelled"]
-STYLES = ["list", "separate", "preconstruct", "preconstruct-hi"]
+STYLES = ["list", "separate", "reversed", "preconstruct", "preconstruct-hi"]
 # (end_ns or None, attach_control)
 MODES = [(None, False), (2, False), (2, True), (0, False)]
 
@@ -81,6 +84,12 @@ class Scripted(Entity):
             return None
         if kind == "past":
             return [c.mk(now - 1, self, ("nop",), by=seq)]
+        if kind == "past2":
+            return [c.mk(now - 2, self, ("nop",), by=seq), c.mk(now - 1, self, ("nop",), by=seq)]
+        if kind == "emitrev":
+            a_ = c.mk(now + beh[1], self, ("nop",), by=seq)
+            b_ = c.mk(now + beh[1], self, ("nop",), by=seq)
+            return [b_, a_]
         if kind == "crash":
             other = c.ents[1 - c.ents.index(self)]
             other._crashed = beh[1]
@@ -170,6 +179,8 @@ def build_and_run(program, style, mode):
         evs = make_events()
         if style == "list":
             sim.schedule(evs)
+        elif style == "reversed":  # pushed in the reverse of creation order
+            sim.schedule(evs[::-1])
         else:
             for e in evs:
                 sim.schedule(e)
@@ -285,11 +296,20 @@ def oracle(c: Ctx, program, style, mode):
                 created_before = r2["pre"] or (r2["by"] in order and order[r2["by"]] < i)
                 if not created_before:
                     continue
-                if s2 in order and order[s2] < i:
-                    continue
-                # undelivered at this point and non-daemon: counts as pending if live or cancelled-unreached
-                if r2["time"] < r2["clock"]:
-                    continue
+                if s2 in order:
+                    if order[s2] < i:
+                        continue
+                else:
+                    # never delivered (cancelled, crashed target, stale): it can only have been
+                    # pending while its turn (time, creation) still lay ahead of this delivery
+                    if r2["time"] < r2["clock"]:
+                        continue
+                    if style.startswith("preconstruct") and r2["pre"] != reg[seq]["pre"]:
+                        # relative creation order undefined (see tie-order): compare by time only
+                        if r2["time"] < reg[seq]["time"]:
+                            continue
+                    elif (r2["time"], s2) < (reg[seq]["time"], seq):
+                        continue
                 pending = True
                 break
             if not pending:
